@@ -168,13 +168,14 @@ CHECKS = {
         profile="readonly", cat="exploration", ref="DESIGN.md section 4 C14",
         text="Phase A builds a file with the mixed H/V/VS/SD/GR/AN workload (linked-block, external, chunked, "
              "compressed objects). Phase B freezes every file in the simulated disk, opens read-only through Hopen/"
-             "SDstart (+Vstart/GRstart/ANstart) and runs a random program of reads, inquiries and 51 kinds of "
+             "SDstart (+Vstart/GRstart/ANstart) and runs a random program of reads, inquiries and 62 kinds of "
              "mutation calls: the disk monitor must see no mutating I/O event (reported at the event), the bytes "
              "must be identical, every mutator must return its failure value. Phase C opens read-write (also files "
              "patched to carry an older library version), edits nothing, closes: every object and every raw element "
              "reads back identical. 6 000 (quick) / 150 000 (thorough) programs.",
-        note="15 mutators that read-only handles accept without touching the disk are recorded known findings with "
-             "stored replays and kept out of the search; the mutator table is the reading of 'would have to write'.",
+        note="No guard: the 16 mutators that read-only handles used to accept in memory were repaired in the library "
+             "(fix commits f8f9442, 94cdd13, 0e13bb3, b4e710c, f12707c, 416eb29; old replays under findings/fixed). The mutator "
+             "table is the reading of 'would have to write'.",
         tech=TECH % ("", "oracle = disk-seam mutation monitor + byte compare + failure-value table + differential read-back"),
     ),
     "C16": dict(
